@@ -63,13 +63,9 @@ pub fn run(args: &Args, rep: &mut Report) {
         // complete image, short reads: must still read and be equal
         for chunk in [1usize, 2, 7, 4096] {
             rep.evaluations += 1;
-            let rd = ChunkReader {
-                data: image,
-                pos: 0,
-                chunk,
-                vary: if chunk == 7 { Some(rng.fork()) } else { None },
-            };
-            match read_model(rd) {
+            let data = image.clone();
+            let vary = if chunk == 7 { Some(rng.fork()) } else { None };
+            match crate::serial::budgeted(move || read_model(ChunkReader { data: &data, pos: 0, chunk, vary })) {
                 ReadOutcome::Ok(f2) => {
                     let got = dump(&f2, &CanonOpts { for_roundtrip: true });
                     if let Some(dd) = diff(&want, &got, "model") {
@@ -108,7 +104,8 @@ pub fn run(args: &Args, rep: &mut Report) {
                     &json!({"model": name, "xml": xml, "prefix_about": cut}),
                 );
             }
-            match read_model(&image[..cut]) {
+            let prefix = image[..cut].to_vec();
+            match crate::serial::budgeted(move || read_model(&prefix[..])) {
                 ReadOutcome::Err(_) => {
                     rep.count("prefixes_rejected", 1);
                 }
